@@ -182,6 +182,32 @@ def reeval_cases():
     return out
 
 
+DYNAMIC = [
+    # the documented way to have a part that changes between evaluations: Is(...); every comparison must hold and nothing may raise
+    "for i in range(3):\n        R.append(snapshot({'a': Is(i)})['a'] == i)",
+    "for i in range(3):\n        R.append([i, 5] == snapshot([Is(i), 5]))",
+    "for i in range(3):\n        R.append(i in snapshot([Is(i), 9]))",
+    "for i in range(3):\n        R.append({'k': i} == snapshot({'k': Is(i)}))",
+    "for i in range(3):\n        s = snapshot({'a': {'b': Is(i)}, 'c': 1})\n        R.append(s['a']['b'] == i)\n        R.append(s['c'] == 1)",
+    "for i in range(2):\n        for j in range(2):\n            R.append(snapshot({'a': Is(i), 'b': Is(j)})['b'] == j)",
+    "for i in range(3):\n        R.append((i, 'x') == snapshot((Is(i), 'x')))",
+]
+DYN_SRC = """from inline_snapshot import snapshot, Is
+R = []
+
+def test_a():
+    try:
+        {body}
+    except BaseException as e:
+        R.append(("exc", type(e).__name__))
+"""
+
+
+def run_dynamic(body):
+    res = driver.run_inproc({"test_a.py": DYN_SRC.format(body=body.replace("\n", "\n    "))}, ())
+    return {"R": res["R"].get("test_a.py"), "after": res["files"]["test_a.py"].decode(), "session_exc": res["session_exc"]}
+
+
 def run_reeval(case):
     src = REEVAL.format(**case)
     res = driver.run_inproc({"test_a.py": src}, ())
@@ -241,10 +267,19 @@ def run(ctx: Ctx):
         elif any(r[0] == "exc" for r in R):
             ctx.report(f"unchanged argument rejected: {R}", {"kind": "reeval", "case": c})
     ctx.coverage["oracle"]["reeval_cases"] = len(rc)
+    for body, o in zip(DYNAMIC, pmap(run_dynamic, DYNAMIC)):
+        ctx.count(("dynamic", body), True)
+        if o["session_exc"] or not o["R"] or any(r is not True for r in o["R"]):
+            ctx.report(f"a snapshot with an Is(...) part evaluated repeatedly: comparisons gave {o['R']} (session: {o['session_exc']}) for `{body}`", {"kind": "dynamic", "body": body})
+    ctx.coverage["oracle"]["dynamic_part_loops"] = len(DYNAMIC)
 
 
 def replay(ctx: Ctx, data):
     case = data["case"]
+    if case.get("kind") == "dynamic":
+        o = run_dynamic(case["body"])
+        print(o)
+        return not o["session_exc"] and bool(o["R"]) and all(r is True for r in o["R"])
     if case.get("kind") == "reeval":
         o = run_reeval(case["case"])
         print(o["R"])
